@@ -589,7 +589,7 @@ def run(ctx, res):
                     failing[sig] = cur[:3] + (cur[3] + 1,)
     res.extra["search_space"] = ("%d (formula, conversion) pairs, all assignments of the formula's variables (<=6), "
                                  "extensions over the fresh range counted by DPLL" % nsearch)
-    res.extra["exhaustive"] = "all formulas with <=%d nodes over literals +-1..+-3 (%d formulas)" % (
+    res.extra["exhaustive_subspace"] = "all formulas with <=%d nodes over literals +-1..+-3 (%d formulas)" % (
         3 if quick else 5, len(exhaustive))
     for sig, (f, nv, what, n) in sorted(failing.items()):
         w = sig.split(":")[1]
